@@ -705,7 +705,7 @@ func runStmtOverlap(r *evid.Run) {
 						readRes = keysOf(all)
 					},
 					func(t *sched.T) { // installer
-						if err := recv.F.RecoverFromSnapshot(bytes.NewReader(snaps[f]), nil); err != nil {
+						if err := recv.Recover(bytes.NewReader(snaps[f]), nil); err != nil {
 							instRes = "error: " + err.Error()
 						} else {
 							instRes = "installed"
